@@ -486,6 +486,28 @@ fn main() {
         }
         t
     });
+    // S3h: a round-up carry running through R nines, for run lengths far beyond the small scope and on both sides of
+    // the configured integer-padding limit: the carry consumes every kept fraction digit (1.9^R 6 at N = R), crosses the
+    // point into integer nines (7 9^R .96 at N = 0, 1), or both (-12 9^a . 9^b 5001 at N = b)
+    let mut runs: Vec<usize> = (1..=40).chain([64, 100, 255, 256, 257, 500, 2 * lim as usize, 4097]).collect();
+    runs.extend(((lim - 3).max(1) as usize)..=((lim + 3) as usize));
+    runs.sort();
+    runs.dedup();
+    run.bound("S3h_nines_run_lengths", json!(runs));
+    run.par("S3h carries through long runs of nines", runs.len(), |i| {
+        let mut t = Tally::default();
+        let r = runs[i];
+        let nines = "9".repeat(r);
+        let cases: Vec<(Dec, Vec<usize>)> = vec![
+            (Dec { n: big(&format!("1{}6", nines)), s: r as i128 + 1 }, vec![r, r.saturating_sub(1), r + 1]),
+            (Dec { n: big(&format!("7{}96", nines)), s: 2 }, vec![0, 1, 2]),
+            (Dec { n: -big(&format!("12{}{}5001", nines, "9".repeat(r / 2 + 1))), s: (r / 2 + 1) as i128 + 4 }, vec![r / 2 + 1, r / 2, r / 2 + 2]),
+        ];
+        for (x, ns) in cases.iter() {
+            sweep(&run, &cfg, x, ns, &mut t);
+        }
+        t
+    });
     let wl = word_limit_ints();
     run.par("S3d word-limit coefficients", wl.len(), |i| {
         let mut t = Tally::default();
